@@ -387,7 +387,7 @@ func (c *modsetCache) modSpecKeys(ms ModSpec, ptypes map[string]types.Type, m *m
 			return
 		}
 		c.keysOfType(deref(t), m.keys)
-	case "map":
+	case "map", "mapkey":
 		t := staticTypeOf(ms.Expr, ptypes)
 		if t == nil {
 			m.heapAll = true
